@@ -165,7 +165,14 @@ class C06(Property):
     elif shape == "pow":
       a = single()
       a["num"], a["den"] = a["num"][:2], a["den"][:2]
-      tree = {"op": "pow", "a": a, "n": W.pick("exp", [2, 3, 3, 4])}
+      tree = {"op": "pow", "a": a, "n": W.pick("exp", [2, 3, 3, 4, -1, -2])}
+      if tree["n"] < 0 and a["num"][0][0] != 0:
+        a["num"].insert(0, [0, coeff()])   # the inverse must stay causal
+        a["num"] = a["num"][:2]
+      if tree["n"] < 0 and len(a["num"]) < 2:
+        # single-term constants would be raised to a negative power in
+        # floating point (int ** -2): keep exact arithmetic
+        a["num"].append([a["num"][-1][0] + 1, coeff()])
     elif shape == "scale":
       tree = {"op": "scale", "c": coeff(p_stream=(1, 2)), "a": single(),
               "side": W.pick("side", ["l", "r"])}
@@ -413,7 +420,9 @@ class C06(Property):
     if op == "pow":
       n1, d1 = self.spec_polys(t["a"], n)
       nn, dd = {0: Fraction(1)}, {0: Fraction(1)}
-      for _ in range(t["n"]):
+      if t["n"] < 0:
+        n1, d1 = d1, n1
+      for _ in range(abs(t["n"])):
         nn, dd = pmul(nn, n1), pmul(dd, d1)
       return nn, dd
     n1, d1 = self.spec_polys(t["a"], n)
